@@ -34,7 +34,16 @@ class Emit:
             sys.stdout.flush()
             sys.stderr.flush()
             print(f'OUT{i}c')
+        if self.pattern == 'chatty':
+            # the same status line three times, then many records within one polling interval
+            for _ in range(3):
+                print(f'SAME{i}s')
+            for j in range(BURST):
+                logger.info(f'BST{i}n{j}e')
         return i
+
+
+BURST = 3000
 
 
 class Collect(logging.Handler):
@@ -51,12 +60,14 @@ def main(argv):
     h = Collect()
     logger.handlers = [h]
     logger.setLevel(logging.INFO)
+    logger.propagate = False
     a = Emit(ident=1, pattern='plain')
     b = Emit(ident=2, pattern='flush', dep=a)
     c = Emit(ident=3, pattern='flush2', dep=b)      # finishes last
     d = Emit(ident=4, pattern='plain')
+    e = Emit(ident=5, pattern='chatty')
     lab = labtech.Lab(storage=None, runner_backend=backend, notebook=False, max_workers=2)
-    lab.run_tasks([c, d], disable_progress=True, disable_top=True)
+    lab.run_tasks([c, d, e], disable_progress=True, disable_top=True)
     delivered = list(h.msgs)                          # at the moment run_tasks returned
     tokens = []
     for i, pattern in ((1, 'plain'), (2, 'flush'), (3, 'flush2'), (4, 'plain')):
@@ -64,7 +75,16 @@ def main(argv):
         if pattern == 'flush2':
             tokens.append(f'OUT{i}c')
     counts = {t: sum(m.count(t) for m in delivered) for t in tokens}
-    sys.__stdout__.write('LOGPROBE ' + json.dumps({'backend': backend, 'counts': counts}) + '\n')
+    expected = {t: 1 for t in tokens}
+    counts['SAME5s'] = sum(m.count('SAME5s') for m in delivered)
+    expected['SAME5s'] = 3
+    burst = [m for m in delivered if m.startswith('BST5n')]
+    want = [f'BST5n{j}e' for j in range(BURST)]
+    counts['BST5(burst)'] = len(burst)
+    expected['BST5(burst)'] = BURST
+    counts['BST5(in order, each once)'] = int(burst == want)
+    expected['BST5(in order, each once)'] = 1
+    sys.__stdout__.write('LOGPROBE ' + json.dumps({'backend': backend, 'counts': counts, 'expected': expected}) + '\n')
     sys.__stdout__.flush()
     return 0
 
